@@ -277,8 +277,18 @@ public:
         // compute spanner MCB with exact algorithm
         EdgeWeightMapType spanner_weight_map = get(boost::edge_weight,
                 _spanner);
+        // its cycles consist of spanner edges, translate them to edges of the input graph
+        std::list<std::list<Edge>> spanner_cycles;
         ExactAlgorithm exact_mcb_algo;
-        _weight += exact_mcb_algo(_spanner, spanner_weight_map, out);
+        _weight += exact_mcb_algo(_spanner, spanner_weight_map,
+                std::back_inserter(spanner_cycles));
+        for (const auto &spanner_cycle : spanner_cycles) {
+            std::list<Edge> cycle_edgelist;
+            for (const auto &spanner_e : spanner_cycle) {
+                cycle_edgelist.push_back(_edge_spanner_to_g.at(spanner_e));
+            }
+            *out++ = cycle_edgelist;
+        }
 
         // compute remaining cycles
         parmcb::detail::NonSpannerEdgesCycleBuilder<Graph, WeightMap,
